@@ -388,7 +388,7 @@ def main(tier, seed, replay=None):
     if replay:
         return do_replay(replay, work)
     exe = harness_exe()
-    bg = concurrent.futures.ThreadPoolExecutor(max_workers=3)          # TLC steps next to the binary runs (at most 3 + laws)
+    bg = concurrent.futures.ThreadPoolExecutor(max_workers=4)          # TLC steps next to the binary runs (at most 4 at a time)
     pool = concurrent.futures.ThreadPoolExecutor(max_workers=WORKERS)
     laws_f = bg.submit(tlc_laws, tier == "quick")
     meta, space, ucases = tlc_gen(work, tier == "thorough")
@@ -408,30 +408,29 @@ def main(tier, seed, replay=None):
     base_f = [pool.submit(run_baseline, meta, p, st) for p, st in baseline_specs(meta)]
     budget = 100 if tier == "quick" else 2000           # seconds after which no further binary runs are started
     budget = int(os.environ.get("C23_BUDGET", budget))
-    # render / run / judge are pipelined chunk by chunk; quick: a small first chunk so that the binary runs start early
-    bounds = [0, 80, len(picks)] if tier == "quick" else list(range(0, len(picks), 2500)) + [len(picks)]
+    # render / run / judge are pipelined chunk by chunk (small first chunks so that the binary runs start early); the
+    # rendering is always two chunks ahead of the runs
+    bounds = [0, 100, 450, len(picks)] if tier == "quick" else [0, 300, 1500] + list(range(4000, len(picks), 2500)) + [len(picks)]
     chunks = [picks[a:b] for a, b in zip(bounds, bounds[1:]) if a < b]
     all_obs, all_rendered, bad = [], [], []
     verdicts = [0, 0, 0]
     judge_fs = []
-    t_runs = None
-    render_f = bg.submit(tlc_render, work, chunks[0], "0")
+    render_fs = {k: bg.submit(tlc_render, work, chunks[k], str(k)) for k in range(min(2, len(chunks)))}
     base = [f.result() for f in base_f]
+    t_runs = None
     for k in range(len(chunks)):
-        rendered = render_f.result()
+        rendered = render_fs.pop(k).result()
         if t_runs is None:
             t_runs = time.time()
             phase["render"] = t_runs - t0 - phase["build+gen"]
-        if k + 1 < len(chunks) and time.time() < t_runs + 0.8 * budget:
-            render_f = bg.submit(tlc_render, work, chunks[k + 1], str(k + 1))
-        else:
-            render_f = None
+        if k + 2 < len(chunks) and time.time() < t_runs + 0.7 * budget:
+            render_fs[k + 2] = bg.submit(tlc_render, work, chunks[k + 2], str(k + 2))
         obs = observe(meta, rendered, pool, t_runs + budget)
         rendered = rendered[:len(obs)]
         judge_fs.append((len(all_obs), bg.submit(tlc_judge, work, strip_obs(obs), base if k == 0 else [], ucases, None, str(k))))
         all_obs += obs
         all_rendered += rendered
-        if len(obs) < len(chunks[k]) or time.time() > t_runs + budget or render_f is None:
+        if len(obs) < len(chunks[k]) or time.time() > t_runs + budget or (k + 1) not in render_fs:
             break
     phase["runs"] = time.time() - t_runs
     basebad = []
